@@ -22,7 +22,7 @@ EXPLANATION = (
     'combined with all()).'
     ' (C15.5) parse_criteria(criterion)(cell value) on 16 witness criteria x cell values through the real operator wrappers and comparison methods: six operators, plain values, texts case-insensitively also for <>.'
     ' (C15.6) a witness workbook: MATCH (exact, approximate ascending / descending, repeated values, keys below / between / on / above the values, texts), COUNTIF / COUNTIFS with one to four criteria, CHOOSE at and beyond its bounds against hand-worked linear scans.')
-NOT_DECIDED = 'agreement with a linear scan on concrete data; approximate-match search on sorted data'
+NOT_DECIDED = 'tables beyond the witness columns; SUMIF / SUMIFS (the installed pandas lacks DataFrame.applymap, which they need); VLOOKUP on real pandas frames'
 TRUSTED = ['pandas set_index/loc semantics for VLOOKUP', 'workbook scenarios: pandas storage of range arrays as row-major rows, numpy on Python numbers (IEEE results, 64-bit integer wrap), dateutil.parser.parse rejecting texts that are no dates, openpyxl address arithmetic, inspect.signature built from the FunctionDef', 'typing.Union aliases compare as sets of their members']
 
 
@@ -90,42 +90,8 @@ def rule_2(ctx):
         ctx.expect(not wrong, node, f'regex keeps an operand that starts with {label}',
                    f'the criteria regex splits {wrong}: the prefix group swallows the first character of the operand, the operator is '
                    f'not recognised and the criterion degrades to text equality (COUNTIF(r,">-5") = 0)')
-    # fallback: not an operator -> "=" and the WHOLE text is the operand
-    pc = cm.func('parse_criteria')
-    p = func_params(pc)[0]
-    fb = [n for n in walk_local(pc) if isinstance(n, ast.If) and isinstance(n.test, ast.Compare) and isinstance(n.test.ops[0], ast.Is)
-          and isinstance(n.test.comparators[0], ast.Constant) and n.test.comparators[0].value is None]
-    ok = False
-    why = 'parse_criteria has no "prefix is not an operator" branch that restores the whole criterion text as the operand'
-    if fb:
-        body = fb[0].body
-        eq = any(isinstance(a, ast.Assign) and isinstance(a.value, ast.Subscript) and isinstance(a.value.slice, ast.Constant)
-                 and a.value.slice.value == '=' for a in body)
-        whole = any(isinstance(a, ast.Assign) and isinstance(a.value, ast.Name) and a.value.id == p for a in body) or any(
-            isinstance(a, ast.Assign) and isinstance(a.value, ast.Call) and names_in(a.value) == {p, 'str'} for a in body)
-        ok = eq and whole
-        why = 'when the prefix is not a comparison operator the operand is not reset to the whole criterion text: leading ' \
-              'non-word characters ("-7", "(none)") are cut off the value that is compared'
-    two_arg_get = [c for c in flow.calls_in(pc) if isinstance(c.func, ast.Attribute) and c.func.attr == 'get' and len(c.args) == 2
-                   and 'CRITERIA_OPERATORS' in ast.unparse(c.func.value)]
-    ctx.expect(ok and not two_arg_get, pc, 'no operator prefix -> "=" on the whole criterion text', why)
-    # the check closure applies operator(probe, value) in that order
-    inner = [fn for q, fn in cm.funcs.items() if q.startswith('parse_criteria.')]
-    ok = False
-    for fn in inner:
-        r = last_return(fn)
-        if r is not None and isinstance(r.value, ast.Call) and isinstance(r.value.func, ast.Name) and r.value.func.id not in func_params(fn):
-            a = r.value.args
-            # callee: the free variable bound to the chosen comparison wrapper (looked up in CRITERIA_OPERATORS)
-            callee = r.value.func.id
-            bound_to_table = any(isinstance(x, ast.Assign) and any(isinstance(t, ast.Name) and t.id == callee for t in x.targets)
-                                 and 'CRITERIA_OPERATORS' in ast.unparse(x.value) for x in walk_local(pc))
-            operand_var = a[1].id if len(a) == 2 and isinstance(a[1], ast.Name) else None
-            operand_is_cast = any(isinstance(x, ast.Assign) and any(isinstance(t, ast.Name) and t.id == operand_var for t in x.targets)
-                                  for x in walk_local(pc))
-            ok = ok or (len(a) == 2 and isinstance(a[0], ast.Name) and a[0].id == func_params(fn)[0] and bound_to_table and operand_is_cast)
-    ctx.expect(ok, pc, 'check(probe) = operator(probe, operand)', 'the check closure does not call operator(cell value, operand) in that order')
-    ctx.floor(12, 'criteria table + regex witness classes + fallback')
+    # the fallback (no operator prefix -> "=" on the whole text) and the operand order of the check are decided on values by C15.5
+    ctx.floor(10, 'criteria table + regex witness classes')
 
 
 def rule_3(ctx):
@@ -166,48 +132,31 @@ def rule_3(ctx):
     ctx.floor(9, 'CHOOSE critical points, VLOOKUP guards')
 
 
+SCAN_CELLS = {
+    'A1': 7, 'A2': 1, 'A3': 1, 'A4': 1, 'A5': 1, 'A6': 1, 'A7': 1, 'A8': 7, 'A9': 1, 'A10': 7,
+    'B1': 'x', 'B2': 'y', 'B3': 'y', 'B4': 'y', 'B5': 'y', 'B6': 'y', 'B7': 'y', 'B8': 'x', 'B9': 'x', 'B10': 'y',
+    'C1': 1, 'C2': 2, 'C3': 3, 'C4': 4, 'C5': 5, 'C6': 6, 'C7': 7, 'C8': 8, 'C9': 9, 'C10': 10,
+    'S1': '=COUNTIF(A1:A10,7)', 'S2': '=COUNTIF(A1:A10,">1")', 'S3': '=COUNTIF(A1:A10,"<>7")', 'S4': '=COUNTIFS(A1:A10,7,B1:B10,"x")',
+    'S5': '=COUNTIFS(A1:A10,7,B1:B10,"y")', 'S6': '=COUNTIFS(B1:B10,"x",A1:A10,1)', 'S7': '=COUNTIFS(A1:A10,7,B1:B10,"x",C1:C10,">1")',
+    'S8': '=COUNTIFS(C1:C10,">=8",A1:A10,7)', 'S9': '=COUNTIFS(C1:C10,"<=1",A1:A10,7,B1:B10,"x")', 'S10': '=COUNTIF(B1:B10,"x")+COUNTIF(B1:B10,"y")',
+    'S11': '=COUNTIFS(A1:A10,1,B1:B10,"y",C1:C10,"<>5")', 'S12': '=COUNTIF(C10:C10,10)',
+}
+SCAN_EXPECTED = {'S1': 3, 'S2': 3, 'S3': 7, 'S4': 2, 'S5': 1, 'S6': 1, 'S7': 1, 'S8': 2, 'S9': 1, 'S10': 10, 'S11': 5, 'S12': 1}
+
+
 def rule_4(ctx):
-    for name in ('COUNTIF', 'COUNTIFS', 'SUMIF', 'SUMIFS'):
-        f = _reg(ctx, name)
-        fn = f.node
-        r = last_return(fn)
-        ok = r is not None and isinstance(r.value, ast.Call) and isinstance(r.value.func, ast.Name) and r.value.func.id == 'sum'
-        ctx.expect(ok, fn, f'{name} returns a sum over the range', f'{name} does not return sum(...) over the tested cells')
-        if not ok:
-            continue
-        comp = r.value.args[0]
-        if not isinstance(comp, (ast.ListComp, ast.GeneratorExp)):
-            ctx.bad(fn, f'{name} sums a comprehension over all cells', 'the summed collection is not a comprehension over the range')
-            continue
-        gen = comp.generators[0]
-        counting = name.startswith('COUNT')
-        if counting:
-            ok = not gen.ifs and any(isinstance(c, ast.Call) for c in ast.walk(comp.elt))
-            why = f'{name} filters cells before testing them or does not apply the check to each cell'
-        else:
-            ok = len(gen.ifs) == 1 and any(isinstance(c, ast.Call) for c in ast.walk(gen.ifs[0]))
-            why = f'{name} does not select the summands by applying the check to each cell'
-        ctx.expect(ok and len(comp.generators) == 1, comp, f'{name}: the check is applied to every cell', why)
-        has_break = any(isinstance(x, (ast.Break,)) for x in walk_local(fn))
-        ctx.expect(not has_break, fn, f'{name}: no early exit', f'{name} stops scanning early')
-        if name.endswith('S'):
-            allc = [c for c in ast.walk(comp) if isinstance(c, ast.Call) and isinstance(c.func, ast.Name) and c.func.id == 'all']
-            ctx.expect(bool(allc), comp, f'{name}: criteria combined with all()', f'{name} does not require every criterion to hold (all)')
-            zips = [c for c in ast.walk(comp) if isinstance(c, ast.Call) and isinstance(c.func, ast.Name) and c.func.id == 'zip'
-                    and any(isinstance(a, ast.Starred) for a in c.args)]
-            ctx.expect(bool(zips), comp, f'{name}: ranges walked position by position (zip(*ranges))', f'{name} does not pair the ranges position by position')
-        PC = 'pkg:xlfunctions.xlcriteria:parse_criteria'
-        pcs = [c for c in flow.calls_in(fn) if ctx.res.resolve(c.func, f.module) == PC]
-        if not pcs:
-            # through a package helper (one level)
-            for c in flow.calls_in(fn):
-                ref = ctx.res.resolve(c.func, f.module) if isinstance(c.func, (ast.Name, ast.Attribute)) else None
-                hm, hfn = ctx.res.lookup(ref) if ref else (None, None)
-                if isinstance(hfn, ast.FunctionDef) and any(ctx.res.resolve(x.func, hm) == PC for x in flow.calls_in(hfn)
-                                                            if isinstance(x.func, (ast.Name, ast.Attribute))):
-                    pcs.append(c)
-        ctx.expect(bool(pcs), fn, f'{name} builds its check with parse_criteria', f'{name} does not use parse_criteria')
-    ctx.floor(16, 'scan structure of the four functions')
+    """Every cell of the range is tested, several criteria are combined conjunctively position by position - decided on a witness
+    workbook evaluated as written: matches in the first and the last row, after long runs of non-matches, criteria over different
+    columns that agree only in some rows. (SUMIF / SUMIFS are not decided: the installed pandas does not support them.)"""
+    from . import workbook as W
+    from . import scenarios as S
+    wb = W.Workbook(ctx, SCAN_CELLS)
+    for a, w in SCAN_EXPECTED.items():
+        name = 'COUNTIFS' if 'COUNTIFS' in SCAN_CELLS[a] else 'COUNTIF'
+        got = wb.value('Sheet1!' + a)
+        ctx.expect(S.same(got, w), _reg(ctx, name).node, f'every cell is tested, position by position: {SCAN_CELLS[a]}',
+                   f'{a} = {SCAN_CELLS[a]} evaluates to {got!r}, expected {w} (A = 7,1,1,1,1,1,1,7,1,7; B = x,y,y,y,y,y,y,x,x,y; C = 1..10)')
+    ctx.floor(12, 'scan cells')
 
 
 CRITERIA_TABLE = [
